@@ -95,6 +95,13 @@ class Rule:
             self.fail(construct, msg, **kw)
         return cond
 
+    def undecided(self, construct, msg):
+        """The abstraction lost the value it needed (TOP where a definite value is required): neither a discharge nor a
+        violation.  The run ends as ANALYSIS-ERROR (exit 2) after everything that could be decided was reported."""
+        key = "%s:%s" % (self.id, construct)
+        if not any(k == key for k, m in self.check.undecided):
+            self.check.undecided.append((key, msg))
+
     def count(self, name, n):
         self.analysed[name] = self.analysed.get(name, 0) + n
 
@@ -120,6 +127,7 @@ class Check:
         self.assumptions = []
         self.explanation = ""
         self.extra = {}
+        self.undecided = []
 
     def rule(self, rid, desc):
         r = Rule(self, rid, desc)
@@ -264,6 +272,9 @@ def include_rules(chk, rule, module, rule_ids, what):
         if not any(r.id in rule_ids for r in sub.rules):
             raise
     n = 0
+    for key, msg in sub.undecided:
+        if key.split(":")[0] in rule_ids and not any(k == "via-" + key for k, m in chk.undecided):
+            chk.undecided.append(("via-" + key, msg))
     for r in sub.rules:
         if r.id in rule_ids:
             n += r.obligations
